@@ -7,7 +7,7 @@ use std::sync::Arc;
 
 use serde::{Deserialize, Serialize};
 
-use super::{Obs, ObsBuf, Source, align, index, observe, text, variant};
+use super::{Obs, ObsBuf, Source, align, cram, index, observe, text, variant};
 use crate::genr::{bytes as gbytes, sam as gsam, text as gtext, vcf as gvcf};
 use crate::kernel::Rng;
 use crate::model::bgzf as mbgzf;
@@ -33,6 +33,8 @@ pub enum Kind {
     Tabix,
     Gzi,
     Fai,
+    Cram,
+    Crai,
 }
 
 pub const ALL_KINDS: &[Kind] = &[
@@ -55,6 +57,8 @@ pub const ALL_KINDS: &[Kind] = &[
     Kind::Tabix,
     Kind::Gzi,
     Kind::Fai,
+    Kind::Cram,
+    Kind::Crai,
 ];
 
 /// kinds whose readers C12 exercises under the delivery adversary
@@ -75,7 +79,12 @@ pub const C13_KINDS: &[Kind] = &[
     Kind::Tabix,
     Kind::Gzi,
     Kind::Fai,
+    Kind::Cram,
+    Kind::Crai,
 ];
+
+/// kinds whose files C15 corrupts
+pub const C15_KINDS: &[Kind] = ALL_KINDS;
 
 /// kinds whose writers C14 drives against the faulty sink
 pub const C14_KINDS: &[Kind] = ALL_KINDS;
@@ -89,8 +98,8 @@ pub fn record_stream_kind(k: Kind) -> bool {
     matches!(k, Kind::BamRaw | Kind::BcfRaw)
 }
 /// container formats: a cut inside a container must be an error
-pub fn container_kind(_k: Kind) -> bool {
-    false
+pub fn container_kind(k: Kind) -> bool {
+    k == Kind::Cram
 }
 
 pub fn variant_name(kind: Kind, v: u8) -> &'static str {
@@ -101,7 +110,8 @@ pub fn variant_name(kind: Kind, v: u8) -> &'static str {
         Kind::Bed => "read_record",
         Kind::Bgzf => ["read_to_end", "read-777", "fill_buf"][(v % 3) as usize],
         Kind::Bam => ["records", "record_bufs", "read_record+positions"][(v % 3) as usize],
-        Kind::Bai | Kind::Csi | Kind::Tabix | Kind::Gzi | Kind::Fai => "read_index",
+        Kind::Bai | Kind::Csi | Kind::Tabix | Kind::Gzi | Kind::Fai | Kind::Crai => "read_index",
+        Kind::Cram => ["records", "read_container+slices"][(v % 2) as usize],
         _ => ["records", "record_bufs"][(v % 2) as usize],
     }
 }
@@ -128,13 +138,15 @@ impl Kind {
             Kind::Tabix => "tabix",
             Kind::Gzi => "gzi",
             Kind::Fai => "fai",
+            Kind::Cram => "cram",
+            Kind::Crai => "crai",
         }
     }
     /// number of reading-protocol variants (lazy/buf records, ...)
     pub fn variants(self) -> u8 {
         match self {
             Kind::Bgzf | Kind::Bam | Kind::Fasta => 3,
-            Kind::Bed | Kind::Bai | Kind::Csi | Kind::Tabix | Kind::Gzi | Kind::Fai => 1,
+            Kind::Bed | Kind::Bai | Kind::Csi | Kind::Tabix | Kind::Gzi | Kind::Fai | Kind::Crai => 1,
             _ => 2,
         }
     }
@@ -168,6 +180,8 @@ pub enum Model {
     Tabix(noodles_tabix::Index),
     Gzi(noodles_bgzf::gzi::Index),
     Fai(noodles_fasta::fai::Index),
+    Cram { model: gsam::SamModel, parsed: align::Parsed, opts: cram::CramOpts },
+    Crai(noodles_cram::crai::Index),
 }
 
 pub struct Made {
@@ -180,6 +194,10 @@ pub struct Made {
     pub boundaries: Vec<usize>,
     /// for BGZF containers: the block table and the uncompressed stream
     pub flat: Option<mbgzf::Flat>,
+    /// for index kinds: the (intact) data file the index was built from
+    pub companion: Option<(Kind, Arc<Vec<u8>>)>,
+    /// for crai: the reference sequences of the companion CRAM
+    pub cram_refs: Option<Vec<(String, Vec<u8>)>>,
 }
 
 fn bgzf_boundaries(file: &[u8]) -> (Vec<usize>, Option<mbgzf::Flat>) {
@@ -210,8 +228,14 @@ fn other(e: impl std::fmt::Display) -> io::Error {
 
 /// Phase 1 of `make`: the model (pure function of the spec).
 pub fn model(spec: &FileSpec) -> io::Result<Model> {
+    model_with_companion(spec).map(|(m, _)| m)
+}
+
+/// The model plus, for index kinds, the data file the index belongs to.
+pub fn model_with_companion(spec: &FileSpec) -> io::Result<(Model, Option<(Kind, Vec<u8>)>)> {
     let mut rng = Rng::new(spec.seed);
-    Ok(match spec.kind {
+    let mut companion: Option<(Kind, Vec<u8>)> = None;
+    let m = match spec.kind {
         Kind::Bgzf => {
             let len = match spec.size_class {
                 0 => rng.usize_below(40),
@@ -261,7 +285,9 @@ pub fn model(spec: &FileSpec) -> io::Result<Model> {
                 let parsed = variant::parse_model(&model)?;
                 let mut bcf = Vec::new();
                 variant::write_bcf(&mut bcf, &parsed)?;
-                Model::Csi(index::csi_normalise(&index::csi_from_bcf(&bcf)?)?)
+                let m = Model::Csi(index::csi_normalise(&index::csi_from_bcf(&bcf)?)?);
+                companion = Some((Kind::Bcf, bcf));
+                m
             } else {
                 let mut params = gsam::gen_params(&mut rng, spec.size_class.max(1));
                 params.sorted = true;
@@ -270,11 +296,13 @@ pub fn model(spec: &FileSpec) -> io::Result<Model> {
                 let parsed = align::parse_model(&model)?;
                 let mut bam = Vec::new();
                 align::write_bam(&mut bam, &parsed)?;
-                if spec.kind == Kind::Bai {
+                let m = if spec.kind == Kind::Bai {
                     Model::Bai(index::bai_from_bam(&bam)?)
                 } else {
                     Model::Csi(index::csi_normalise(&index::csi_from_bam(&bam)?)?)
-                }
+                };
+                companion = Some((Kind::Bam, bam));
+                m
             }
         }
         Kind::Tabix => {
@@ -283,31 +311,95 @@ pub fn model(spec: &FileSpec) -> io::Result<Model> {
             let model = gvcf::generate(&params);
             let parsed = variant::parse_model(&model)?;
             let gz = variant::write_vcfgz(Vec::new(), &parsed)?;
-            Model::Tabix(index::tabix_from_vcfgz(&gz)?)
+            let m = Model::Tabix(index::tabix_from_vcfgz(&gz)?);
+            companion = Some((Kind::VcfGz, gz));
+            m
         }
         Kind::Gzi => {
-            let n = match spec.size_class {
-                0 => rng.usize_below(3),
-                1 => rng.usize_below(20),
-                2 => rng.usize_below(300),
-                _ => 300 + rng.usize_below(3000),
+            // a multi-member BGZF file (several flushes) and the gzi index of its block table
+            let len = match spec.size_class {
+                0 => rng.usize_below(200),
+                1 => rng.usize_below(3000),
+                2 => 1000 + rng.usize_below(70_000),
+                _ => 66_000 + rng.usize_below(250_000),
             };
-            let mut c = 0u64;
-            let mut u = 0u64;
-            let entries: Vec<(u64, u64)> = (0..n)
-                .map(|_| {
-                    c += 28 + rng.below(65_000);
-                    u += 1 + rng.below(65_536);
-                    (c, u)
-                })
-                .collect();
+            let payload = gbytes::Payload {
+                class: *rng.pick(&gbytes::CLASSES),
+                len,
+                seed: rng.next_u64(),
+            }
+            .bytes();
+            let n_flush = 1 + rng.usize_below(if spec.size_class == 0 { 3 } else { 30 });
+            let mut cuts: Vec<usize> = (0..n_flush).map(|_| rng.usize_below(len + 1)).collect();
+            cuts.sort();
+            let mut file = Vec::new();
+            write_to(Kind::Bgzf, &Model::Bytes { payload, cuts }, &mut file)?;
+            let w = mbgzf::walk(&file).map_err(other)?;
+            let n = file.len();
+            let flat = mbgzf::Flat::from_walk(w, n);
+            // gzi lists every member after the first, incl. empty ones? htslib lists all but the
+            // first data block; entries must be strictly usable by partition_point
+            let entries = flat.gzi_entries();
+            companion = Some((Kind::Bgzf, file));
             Model::Gzi(noodles_bgzf::gzi::Index::from(entries))
+        }
+        Kind::Cram | Kind::Crai => {
+            let mut params = gsam::gen_params(&mut rng, spec.size_class);
+            params.cram_safe = true;
+            params.max_len = params.max_len.max(1);
+            if params.n_records > 150 {
+                params.n_records = 50 + params.n_records % 100;
+            }
+            if spec.kind == Kind::Crai {
+                // one reference only: cram::fs::index decodes multi-reference slices with an empty
+                // reference repository (a TODO in noodles) and fails on them
+                params.sorted = true;
+                params.n_refs = 1;
+                params.all_mapped = true;
+                params.n_records = params.n_records.max(3);
+            }
+            let model = gsam::generate(&params);
+            let parsed = align::parse_model(&model)?;
+            // encoders on which the unchanged tree round-trips exactly (cram::roundtrip_reliable)
+            // (fqzcomp, bzip2 and lzma cost 10-40 ms per file and are drawn rarely)
+            let encoder = match rng.below(48) {
+                0..=2 => 9u8,
+                3 => 3,
+                4 => 4,
+                n => [0u8, 1, 2][(n % 3) as usize],
+            };
+            let opts = cram::CramOpts {
+                encoder,
+                version: rng.below(3) as u8,
+                preserve_read_names: rng.chance(3, 4),
+                encode_alignment_start_positions_as_deltas: rng.bool(),
+                encoder_arg: rng.below(2) as u8,
+                // hook H3: several slices/containers with a handful of records
+                records_per_slice: match rng.below(4) {
+                    0 => None,
+                    1 => Some(1),
+                    _ => Some(1 + rng.usize_below(40)),
+                },
+            };
+            set_cram_refs(&model.refs);
+            if spec.kind == Kind::Cram {
+                Model::Cram { model, parsed, opts }
+            } else {
+                let mut file = Vec::new();
+                cram::write_cram(&mut file, &parsed, &model.refs, &opts)?;
+                let idx = index::crai_from_cram(&file)?;
+                companion = Some((Kind::Cram, file));
+                Model::Crai(idx)
+            }
         }
         Kind::Fai => {
             let m = gtext::fasta(&gtext::gen_params(&mut rng, spec.size_class));
-            Model::Fai(index::fai_from_fasta(&m.text)?)
+            let idx = index::fai_from_fasta(&m.text)?;
+            companion = Some((Kind::Fasta, m.text));
+            Model::Fai(idx)
         }
-    })
+    };
+    Ok((m, companion))
 }
 
 /// The careful-user write protocol of each kind (DESIGN.md §12) against any sink.
@@ -342,6 +434,8 @@ pub fn write_to<W: Write>(kind: Kind, model: &Model, w: W) -> io::Result<()> {
         (Kind::Tabix, Model::Tabix(i)) => index::write_tabix(w, i),
         (Kind::Gzi, Model::Gzi(i)) => index::write_gzi(w, i),
         (Kind::Fai, Model::Fai(i)) => index::write_fai(w, i),
+        (Kind::Cram, Model::Cram { model, parsed, opts }) => cram::write_cram(w, parsed, &model.refs, opts),
+        (Kind::Crai, Model::Crai(i)) => index::write_crai(w, i),
         _ => Err(other("harness: kind/model mismatch")),
     }
 }
@@ -353,7 +447,24 @@ fn made_from_text(kind: Kind) -> bool {
 }
 
 pub fn make(spec: &FileSpec) -> io::Result<Made> {
-    let model = model(spec)?;
+    // on a fresh thread: the bytes of a generated file must not depend on how many hash maps this
+    // worker created before (see kernel::fresh_thread)
+    let made = crate::kernel::fresh_thread(|| make_inner(spec))?;
+    if let Model::Cram { model, .. } = &made.model {
+        set_cram_refs(&model.refs);
+    }
+    if let Some(refs) = &made.cram_refs {
+        set_cram_refs(refs);
+    }
+    Ok(made)
+}
+
+fn make_inner(spec: &FileSpec) -> io::Result<Made> {
+    let (model, companion) = model_with_companion(spec)?;
+    let cram_refs = match spec.kind {
+        Kind::Crai => Some(cram_refs().as_ref().clone()),
+        _ => None,
+    };
     let kind = spec.kind;
     let bytes: Vec<u8> = if made_from_text(kind) {
         match &model {
@@ -377,6 +488,7 @@ pub fn make(spec: &FileSpec) -> io::Result<Made> {
             (Model::Fastq(m), _) => with_end(&m.starts, bytes.len()),
             (Model::Lines(m), _) => with_end(&m.starts, bytes.len()),
             (_, Kind::Sam | Kind::Vcf | Kind::Fai) => line_boundaries(&bytes),
+            (_, Kind::Cram) => cram::container_boundaries(&bytes).map_err(other)?,
             _ => vec![0, bytes.len()],
         };
         (b, None)
@@ -393,6 +505,8 @@ pub fn make(spec: &FileSpec) -> io::Result<Made> {
         Model::Tabix(i) => vec![format!("X|{i:?}")],
         Model::Gzi(i) => vec![format!("X|{i:?}")],
         Model::Fai(i) => i.as_ref().iter().map(|r| format!("R|{r:?}")).collect(),
+        Model::Cram { model, opts, .. } => cram::canonical_expected(model, opts),
+        Model::Crai(i) => i.iter().map(|r| format!("R|{r:?}")).collect(),
     };
     Ok(Made {
         spec: spec.clone(),
@@ -401,7 +515,23 @@ pub fn make(spec: &FileSpec) -> io::Result<Made> {
         expected,
         boundaries,
         flat,
+        companion: companion.map(|(k, b)| (k, Arc::new(b))),
+        cram_refs,
     })
+}
+
+thread_local! {
+    /// Reference sequences of the CRAM model made last on this thread: the CRAM reader needs the
+    /// reference repository, which is part of the workload, not of the file.
+    static CRAM_REFS: std::cell::RefCell<Arc<Vec<(String, Vec<u8>)>>> = std::cell::RefCell::new(Arc::new(Vec::new()));
+}
+
+pub fn set_cram_refs(refs: &[(String, Vec<u8>)]) {
+    CRAM_REFS.with(|r| *r.borrow_mut() = Arc::new(refs.to_vec()));
+}
+
+pub fn cram_refs() -> Arc<Vec<(String, Vec<u8>)>> {
+    CRAM_REFS.with(|r| r.borrow().clone())
 }
 
 fn with_end(starts: &[usize], len: usize) -> Vec<usize> {
@@ -521,6 +651,8 @@ pub fn read(kind: Kind, variant: u8, src: Source) -> Obs {
             Kind::Tabix => index::read_tabix(src.into_read(), items),
             Kind::Gzi => index::read_gzi(src.into_read(), items),
             Kind::Fai => index::read_fai(src.into_buf(), items),
+            Kind::Cram => cram::read_cram(src, &cram_refs(), mode(variant), items),
+            Kind::Crai => index::read_crai(src.into_read(), items),
         }
     })
 }
